@@ -77,7 +77,21 @@ async def run(job):
                     await decoy(kind, 77, n)
             closed[n] = t
 
+    async def first_cycle(k_open):
+        """a first run of the same object, killed while its prompt number k_open is open (it never gets an end event);
+        the numbers restart in the next run, where (trace, k_open) is at first a prompt that has not been issued yet"""
+        async for p in nl.prompts():
+            if p.prompt_no >= k_open:
+                await nl.kill()
+                break
+            await nl.send_pdb_command('next', p.prompt_no, p.trace_no)
+
     async with nl:
+        if job.get('first_run_kill_at'):
+            async with nl.run_session():
+                await first_cycle(job['first_run_kill_at'])
+            await nl.reset()
+            log.clear()
         async with nl.run_session():
             await respond()
     return {'log': log, 'decoys': decoys, 'genuine': genuine}
